@@ -53,7 +53,12 @@ func will(x *explore.X, pr c12params) {
 		state = pr.States[vrt.Choose(len(pr.States), "state")]
 	}
 	ka := []uint16{0, 10, 600}[vrt.Choose(3, "keepalive")]
-	x.Logf("will q%d retain=%v, state %s, cause %s, keepalive %d", wq, wr, state, cause, ka)
+	// the client under test is either a named persistent client or an anonymous one (empty client id, clean session)
+	anon := vrt.Choose(2, "anonymous-client") == 1
+	if anon && (cause == "takeover-clean" || cause == "takeover-unclean") {
+		return // an anonymous client cannot be displaced through its id
+	}
+	x.Logf("will q%d retain=%v, state %s, cause %s, keepalive %d, anonymous %v", wq, wr, state, cause, ka, anon)
 	sig := fmt.Sprintf("%s in state %s", cause, state)
 	if cause == "token-timeout" && state != "blocked-on-token" {
 		return // the token timeout can only strike a connection that is waiting for a token
@@ -90,6 +95,10 @@ func will(x *explore.X, pr c12params) {
 	wm := &packet.Message{Topic: "w", Payload: []byte("WILL"), QOS: wq, Retain: wr}
 	d := w.NewClient("d")
 	conn := creds(env.Connect("d", false, wm))
+	if anon {
+		conn = creds(env.Connect("", true, wm))
+		sig += " (anonymous)"
+	}
 	conn.KeepAlive = ka
 	disconnectRead := false // the broker read a DISCONNECT packet from the connection (as opposed to one still queued when it died)
 	d.BEnd.OnRecv = func(pkt packet.Generic) {
